@@ -4,7 +4,7 @@
    N, Z, positive, nat stay the extracted inductive types; there is no
    Extract Constant / Extract Inductive of ours. *)
 From Coq Require Import ExtrOcamlBasic ExtrOcamlString.
-From TM Require Import Base Mapper Monitors.
+From TM Require Import Base Mapper Monitors MapperRepeat.
 From TMGen Require Import Modifiers.
 
 Definition x_is_action : key -> bool := Modifiers.is_action_key.
@@ -14,5 +14,6 @@ Definition x_for_layout_ok := for_layout_ok.
 Definition x_init := init.
 Definition x_apply_evs := apply_evs.
 Definition x_phys_after := phys_after.
+Definition x_expected_repeat := expected_repeat.
 
-Extraction "model.ml" x_is_action x_mstep x_check_step x_for_layout_ok x_init x_apply_evs x_phys_after.
+Extraction "model.ml" x_is_action x_mstep x_check_step x_for_layout_ok x_init x_apply_evs x_phys_after x_expected_repeat.
